@@ -282,7 +282,15 @@ assert sorted(PROBE_ORDER) == sorted(P)
 NOSAN = {"surfdl"}
 # probes that must not run under the sanitizer build: on a new instance they take the not-found branch of RATE_PK / RATE_SVD /
 # RATE_HERMANSKA / MEANG, which prints the looked-up name from an already freed buffer (ASan: heap-use-after-free in PBasic.cpp)
-NOSAN_PROBES = {"ratepk", "ratedb", "ratesvd", "rateher", "meang"}
+NOSAN_PROBES = {"ratepk", "ratedb", "ratesvd", "rateher", "meang",
+                # the sanitizer build has the debug assertions on; these input-error probes trip one on any instance
+                # (IPhreeqc.cpp:1672 output_msg, PPassemblageComp.cxx:336 totalize via GetComponentCount;
+                # IPhreeqc.cpp punch_msg asserts in 'dump' when it follows the selected-output probes of its chain)
+                "elem2", "eqxx", "err", "dump",
+                # ... and so do the remaining probes of the chains 'sinks' and 'definitions' once an earlier probe of their chain
+                # has defined selected output with file sinks or stopped with an input error: the sanitizer pass keeps the
+                # calculation chains (bare, speciation, transport, stagnant, kinetics)
+                "noso", "so", "acc", "runfile", "log", "basic", "calc", "rate", "rate2", "use", "use1"}
 
 
 def probes(variant):
